@@ -487,8 +487,10 @@ def r22_bound_kind(ctx):
                 ok = mn == "-99" and mx == "99"
                 why = "zone hours lie in -99..99"
             elif name == "TimeZone minutes":
-                ok = mn == "min_minutes" and mx == "max_minutes"
-                why = "zone minutes lie within the sign-dependent window"
+                ok = mn is not None and mx is not None and \
+                    _sign_window(f, mn, mx)
+                why = "zone minutes lie within the sign-dependent window " \
+                    "(1-60..60-1, one-sided when the hours are signed)"
             rep.check(ok, rule, key, f.loc(c),
                       "%s: %s" % (name, why),
                       "%s is checked with min_val=%s max_val=%s "
@@ -543,14 +545,41 @@ def r22_bound_kind(ctx):
               sorted(missing), P)
     # zone: conflicting signs refused
     z = ctx.func("data.TimeZone.__init__")
-    src = U(z.node)
-    three = ("hours > 0" in src and "hours < 0" in src and
-             "min_minutes = 0" in src and "max_minutes = 0" in src)
+    three = False
+    for c in walk_no_nested(z.node):
+        if isinstance(c, ast.Call) and U(c.func) == "_bounds_checker" and \
+                len(c.args) >= 2 and "minutes" in U(c.args[1]):
+            kw = {k.arg: U(k.value) for k in c.keywords}
+            if "min_val" in kw and "max_val" in kw:
+                three = _sign_window(z, kw["min_val"], kw["max_val"])
     rep.check(three, rule, ctx.fkey(z, None, "sign-window"), z.loc(),
               "the minute window is narrowed by the sign of the hours "
               "(conflicting signs are refused)",
               "TimeZone.__init__ no longer narrows the minute window by the "
               "sign of the hours", P + ("C06",))
+
+
+def _sign_window(f, mn, mx):
+    """min/max variables start at -(MINUTES_IN_HOUR-1) / +(MINUTES_IN_HOUR-1)
+    and are narrowed to 0 under hours > 0 / hours < 0 respectively."""
+    hours = f.call_params[0] if f.call_params else "hours"
+    init = {}
+    narrowed = {}
+    for n in walk_no_nested(f.node):
+        if isinstance(n, ast.Assign) and isinstance(n.targets[0], ast.Name):
+            name = n.targets[0].id
+            p = parent(n)
+            if isinstance(p, ast.If) and isinstance(
+                    p.test, ast.Compare) and U(p.test.left) == hours and \
+                    U(p.test.comparators[0]) == "0" and any(
+                        n is b for b in p.body):
+                narrowed[name] = (type(p.test.ops[0]).__name__, U(n.value))
+            elif name in (mn, mx):
+                init[name] = U(n.value)
+    ok_init = "MINUTES_IN_HOUR" in init.get(mn, "") and \
+        "MINUTES_IN_HOUR" in init.get(mx, "")
+    return ok_init and narrowed.get(mn) == ("Gt", "0") and \
+        narrowed.get(mx) == ("Lt", "0")
 
 
 # ------------------------------------------------------------------- R33
